@@ -155,7 +155,7 @@ TIME_VALUES = [(14, 34, 28), (0, 5, 9)]
 LIST_VALUES = [["A", "B", "C"], ["A", "B"], ["x"]]
 
 
-def macro_family(oid, vi, lv, sval, vval, name, fargs):
+def macro_family(oid, vi, lv, sval, vval, name, fargs, lv_other=None):
     """The t*_format! family on one value: locale-taking string / display / view, and context-taking tracked and untracked."""
     F = "leptos_i18n::formatting::"
     return [
@@ -166,7 +166,11 @@ def macro_family(oid, vi, lv, sval, vval, name, fargs):
         'emit(%d, "mu%d", &%stu_format_display!(i18n, %s, formatter: %s%s).to_string()); '
         'emit(%d, "mw%d", &html(%st_format!(i18n, move || %s, formatter: %s%s))); });' % (
             lv, oid, vi, F, sval, name, fargs, oid, vi, F, sval, name, fargs, oid, vi, F, vval, name, fargs),
-    ]
+    ] + ([
+        # history: the view is built while another locale is current, the locale is set, then it is rendered
+        '    with_ctx(%s, |i18n| { let v = %st_format!(i18n, move || %s, formatter: %s%s); let u = %stu_format!(i18n, move || %s, formatter: %s%s); i18n.set_locale(%s); '
+        'emit(%d, "mx%d", &html(v)); emit(%d, "my%d", &html(u)); });' % (lv_other, F, vval, name, fargs, F, vval, name, fargs, lv, oid, vi, oid, vi),
+    ] if lv_other and vi == 0 else [])
 
 
 def ref_value(name):
@@ -192,7 +196,7 @@ def ref_lines(oid, lv, i, name):
 
 
 FLAVOUR_NAMES = {"s": "td_string", "v": "td", "m": "td_format_string", "md": "td_format_display", "mv": "td_format", "mc": "t_format_string",
-                 "mu": "tu_format_display", "mw": "t_format", "rs": "td_string-through-foreign-key", "rv": "td-through-foreign-key",
+                 "mu": "tu_format_display", "mw": "t_format", "mx": "t_format-built-before-set_locale", "my": "tu_format-built-before-set_locale", "rs": "td_string-through-foreign-key", "rv": "td-through-foreign-key",
                  "rh": "td_string-through-foreign-key-with-args"}
 
 
@@ -219,6 +223,7 @@ def e2e_stage(res, tier, seed):
     for i, (name, args, dbg, canon) in enumerate(cfgs):
         for loc in locs:
             lv = "Locale::" + e2e.ident(loc)
+            lv_other = "Locale::" + e2e.ident(locs[(locs.index(loc) + 1) % len(locs)])
             ls = e2e.rust_str(loc)
             key = "f%d" % i
             fargs = ("(" + "; ".join("%s: %s" % (k, v) for k, v in args if v.isascii() and v.isidentifier()) + ")") if args else ""
@@ -234,35 +239,35 @@ def e2e_stage(res, tier, seed):
                     lines.append('    emit(%d, "exp%d", &%s); emit(%d, "s%d", &td_string!(%s, %s, v = %s).to_string()); emit(%d, "v%d", &html(td!(%s, %s, v = move || %s)));' % (
                         oid, vi, exp, oid, vi, lv, key, lit, oid, vi, lv, key, lit))
                     if macro_ok:
-                        lines += macro_family(oid, vi, lv, lit, lit, name, fargs)
+                        lines += macro_family(oid, vi, lv, lit, lit, name, fargs, lv_other)
             elif name == "date":
                 for vi, (y, m, d) in enumerate(DATE_VALUES):
                     val = "Date::try_new_iso_date(%d, %d, %d).unwrap().to_any()" % (y, m, d)
                     lines.append('    emit(%d, "exp%d", &exp_date(%s, %d, %d, %d, length::Date::%s)); emit(%d, "s%d", &td_string!(%s, %s, v = %s).to_string()); emit(%d, "v%d", &html(td!(%s, %s, v = move || %s)));' % (
                         oid, vi, ls, y, m, d, canon[1], oid, vi, lv, key, val, oid, vi, lv, key, val))
                     if macro_ok:
-                        lines += macro_family(oid, vi, lv, "&" + val, val, name, fargs)
+                        lines += macro_family(oid, vi, lv, "&" + val, val, name, fargs, lv_other)
             elif name == "time":
                 for vi, (h, mi, s) in enumerate(TIME_VALUES):
                     val = "Time::try_new(%d, %d, %d, 0).unwrap()" % (h, mi, s)
                     lines.append('    emit(%d, "exp%d", &exp_time(%s, %d, %d, %d, length::Time::%s)); emit(%d, "s%d", &td_string!(%s, %s, v = %s).to_string()); emit(%d, "v%d", &html(td!(%s, %s, v = move || %s)));' % (
                         oid, vi, ls, h, mi, s, canon[1], oid, vi, lv, key, val, oid, vi, lv, key, val))
                     if macro_ok:
-                        lines += macro_family(oid, vi, lv, "&" + val, val, name, fargs)
+                        lines += macro_family(oid, vi, lv, "&" + val, val, name, fargs, lv_other)
             elif name == "datetime":
                 for vi, ((y, m, d), (h, mi, s)) in enumerate(zip(DATE_VALUES, TIME_VALUES)):
                     val = "DateTime::new(Date::try_new_iso_date(%d, %d, %d).unwrap().to_any(), Time::try_new(%d, %d, %d, 0).unwrap())" % (y, m, d, h, mi, s)
                     lines.append('    emit(%d, "exp%d", &exp_datetime(%s, %d, %d, %d, %d, %d, %d, length::Date::%s, length::Time::%s)); emit(%d, "s%d", &td_string!(%s, %s, v = %s).to_string()); emit(%d, "v%d", &html(td!(%s, %s, v = move || %s)));' % (
                         oid, vi, ls, y, m, d, h, mi, s, canon[1], canon[2], oid, vi, lv, key, val, oid, vi, lv, key, val))
                     if macro_ok:
-                        lines += macro_family(oid, vi, lv, "&" + val, val, name, fargs)
+                        lines += macro_family(oid, vi, lv, "&" + val, val, name, fargs, lv_other)
             else:
                 for vi, items in enumerate(LIST_VALUES):
                     arr = "[%s]" % ", ".join(e2e.rust_str(x) for x in items)
                     lines.append('    emit(%d, "exp%d", &exp_list(%s, &%s, %s, ListLength::%s)); emit(%d, "s%d", &td_string!(%s, %s, v = %s).to_string()); emit(%d, "v%d", &html(td!(%s, %s, v = move || %s)));' % (
                         oid, vi, ls, arr, e2e.rust_str(canon[1]), canon[2], oid, vi, lv, key, arr, oid, vi, lv, key, arr))
                     if macro_ok:
-                        lines += macro_family(oid, vi, lv, arr, arr, name, fargs)
+                        lines += macro_family(oid, vi, lv, arr, arr, name, fargs, lv_other)
             lines += ref_lines(oid, lv, i, name)
             c.add("\n".join(lines), {"name": name, "args": args, "canon": canon, "locale": loc})
     root = e2e.write_workspace("c18", [c], seed=seed)
@@ -295,12 +300,12 @@ def e2e_stage(res, tier, seed):
         while "exp%d" % vi in got:
             want = got["exp%d" % vi]["v"]
             texts.setdefault((exp["name"], exp["locale"], vi), {}).setdefault(exp["canon"], want)
-            for fl in ("s", "v", "m", "md", "mv", "mc", "mu", "mw", "rs", "rv", "rh"):
+            for fl in ("s", "v", "m", "md", "mv", "mc", "mu", "mw", "mx", "my", "rs", "rv", "rh"):
                 o = got.get("%s%d" % (fl, vi))
                 if o is None:
                     continue
                 res.ev()
-                text = e2e.normalise_html(o["v"]) if fl in ("v", "mv", "mw", "rv") else o["v"]
+                text = e2e.normalise_html(o["v"]) if fl in ("v", "mv", "mw", "mx", "my", "rv") else o["v"]
                 res.count("e2e:%s:%s" % (exp["name"], FLAVOUR_NAMES[fl]))
                 if exp["args"]:
                     res.nontriv([exp["canon"], exp["locale"], vi])
